@@ -13,7 +13,7 @@ COVD=/verif/harness/target_cov
 mkdir -p $COVD/prof coverage
 for p in $PROPS; do
   rm -f $COVD/prof/$p-*.profraw
-  [ -n "${COV_REPORT_ONLY:-}" ] || VERIF_COV=1 VERIF_THREADS=${COV_THREADS:-4} VERIF_EVIDENCE_DIR=$COVD/evid ./check $p quick 2>&1 | grep -E "^\[stage\]|VIOLATION|HARNESS|INCONCLUSIVE"
+  [ -n "${COV_REPORT_ONLY:-}" ] || LLVM_PROFILE_FILE=/verif/harness/target_cov/prof/build-%p.profraw VERIF_COV=1 VERIF_NO_REQUIRE=1 VERIF_SCALE=${COV_SCALE:-0.1} VERIF_THREADS=${COV_THREADS:-4} VERIF_EVIDENCE_DIR=$COVD/evid ./check $p quick 2>&1 | grep -E "^\[stage\]|VIOLATION|HARNESS|INCONCLUSIVE"
   if [ -z "${COV_REPORT_ONLY:-}" ]; then
     ls $COVD/prof/$p-*.profraw >/dev/null 2>&1 || { echo "no profiles for $p"; continue; }
     $BIN/llvm-profdata merge -sparse $COVD/prof/$p-*.profraw -o $COVD/$p.profdata || continue
